@@ -47,6 +47,12 @@ var alphabet = []pk{
 	{sym: "E0", kind: "events", min: refwire.RevProfileEvents},
 	{sym: "L2", kind: "log", min: refwire.RevServerLogs, logs: []LogRow{{Time: 1700000000, Micro: 5, Host: "h", QueryID: "q", ThreadID: 7, Priority: 6, Source: "src", Text: "one"}, {Time: 1700000002, Text: "two"}}},
 	{sym: "C", kind: "tablecols", min: refwire.RevColumnDefaults},
+	// the same packet kinds with nothing (or only the less usual counters) in them: a
+	// callback is owed for every packet, whatever it carries
+	{sym: "P0", kind: "progress", prog: refwire.Progress{}},
+	{sym: "Pw", kind: "progress", prog: refwire.Progress{WroteRows: 5, WroteBytes: 40}},
+	{sym: "Pe", kind: "progress", prog: refwire.Progress{ElapsedNs: 777}},
+	{sym: "F0", kind: "profile", prof: refwire.Profile{}},
 	{sym: "X1", kind: "exc", exc: []refwire.Exception{{Code: 60, Name: "DB::Exception", Message: "DB::Exception: Table default.t doesn't exist", Stack: "0. stack"}}},
 	{sym: "X3", kind: "exc", exc: []refwire.Exception{{Code: 395, Name: "DB::Exception", Message: "outer", Stack: "s1"}, {Code: 241, Name: "DB::Exception", Message: "middle", Stack: "s2"}, {Code: 60, Name: "DB::ErrnoException", Message: "inner", Stack: ""}}},
 	{sym: "Z", kind: "eos"},
@@ -251,6 +257,7 @@ type seg struct {
 	gaps    bool // an idle gap longer than the read timeout between packets
 	perPkt  bool // one delivery per packet (no gaps)
 	closing bool // the server closes right after its last byte, and the Read that returns that byte also returns EOF
+	inner   time.Duration // > 0: the pieces (split at cuts) are sent one by one with this idle time before each
 }
 
 func body03(k c03case) Body { return body03seg(k, seg{perPkt: true}, "C03") }
@@ -396,10 +403,22 @@ func body03seg(k c03case, sg seg, prop string) Body {
 			for _, p := range k.script {
 				all = append(all, p.bytes(c.W, k.schema)...)
 			}
-			steps = append(steps, Step{Name: "stream", Send: all, Cut: sg.closing})
+			if sg.inner > 0 {
+				// every wait is shorter than the read timeout, but the packet as a whole takes longer
+				prev := 0
+				for _, cut := range append(append([]int{}, sg.cuts...), len(all)) {
+					steps = append(steps, Step{Name: "idle", Gap: sg.inner}, Step{Name: "piece", Send: all[prev:cut]})
+					prev = cut
+				}
+			} else {
+				steps = append(steps, Step{Name: "stream", Send: all, Cut: sg.closing})
+			}
 			c.C.EOFWithData = sg.closing
 		}
 		for _, cut := range sg.cuts {
+			if sg.inner > 0 {
+				break
+			}
 			c.C.Cuts = append(c.C.Cuts, c.HsIn+cut)
 		}
 		c.C.OneByte = sg.oneByte
@@ -458,7 +477,7 @@ func body03seg(k c03case, sg seg, prop string) Body {
 
 // C03 — results, telemetry and exceptions are delivered exactly once, in order.
 func C03(c *vk.Ctx) {
-	c.Rule("all server scripts of length <= n (quick 3, thorough 4) over the 15-symbol alphabet {Data header / 1 row / 3 rows / 3 other rows, empty end block, Totals, Progress, Profile, ProfileEvents 2 / 0 rows, Log 2 rows, TableColumns, Exception depth 1 / 3, EndOfStream} followed by EndOfStream, x {plain, LZ4} x {typed, Auto, no} result binding x two block schemas ((UInt64, String) and (LowCardinality(String), Array(UInt64), Nullable(String))) with every callback present, at the newest revision; plus all scripts of length <= 2 (thorough 3) x revisions on both sides of every packet-affecting threshold x callback sets {all, none, each alone, deprecated per-item}; plus scripts of length <= 2 x each callback failing; plus scripts of length <= 2 on a client whose previous query ended with a server exception or ended well. Every case is one execution of the real Connect + Do against the reference peer (default schedule); oracle = a reference interpreter of the specified receive loop. distinct_nontrivial = cases.")
+	c.Rule("all server scripts of length <= n (quick 3, thorough 4) over the 19-symbol alphabet {Data header / 1 row / 3 rows / 3 other rows, empty end block, Totals, Progress (all counters / all zero / write counters only / elapsed time only), Profile (filled / all zero), ProfileEvents 2 / 0 rows, Log 2 rows, TableColumns, Exception depth 1 / 3, EndOfStream} followed by EndOfStream, x {plain, LZ4} x {typed, Auto, no} result binding x two block schemas ((UInt64, String) and (LowCardinality(String), Array(UInt64), Nullable(String))) with every callback present, at the newest revision; plus all scripts of length <= 2 (thorough 3) x revisions on both sides of every packet-affecting threshold x callback sets {all, none, each alone, deprecated per-item}; plus scripts of length <= 2 x each callback failing; plus scripts of length <= 2 on a client whose previous query ended with a server exception or ended well. Every case is one execution of the real Connect + Do against the reference peer (default schedule); oracle = a reference interpreter of the specified receive loop. distinct_nontrivial = cases.")
 	quick := c.Quick()
 	maxLen, maxLenRev := 3, 2
 	if !quick {
